@@ -26,7 +26,7 @@ TOL_M = 1.0
 @st.composite
 def routing_case(draw, n=(2, 6), extra_max=4, parallel=False, max_req=4):
     eq = draw(netgen.equipment(span=draw(netgen.span_entry(max_length=200, padding=10, eol=0))))
-    chain_kw = {'spans': (1, 2), 'fiber_kw': {'lumped': False, 'per_freq_loss': False}}
+    chain_kw = {'spans': (1, 2), 'fiber_kw': {'lumped': False, 'per_freq_loss': False}, 'fibreless': True}
     topo, truth = draw(netgen.topology(eq, n=n, extra_max=extra_max, parallel=parallel, chain_kw=chain_kw,
                                        per_degree=False, own_policy=False))
     # some fibres are longer than max_length: auto-design splits them and must keep the edge weights (fibre lengths)
